@@ -5,6 +5,7 @@ import (
 	"math/rand"
 	"os"
 	"sort"
+	"time"
 
 	"github.com/lindb/lindb/config"
 	"github.com/lindb/lindb/models"
@@ -18,8 +19,7 @@ import (
 // shardCase runs the write-side family lookup through a real tsdb engine/shard:
 // Shard.GetOrCrateDataFamily(t).TimeRange() for a handful of timestamps (C13: the range contains
 // t, any timestamp of the range maps to the same family, the next family starts right after) and
-// Shard.GetDataFamilies(range) (mirrored by the model's `gdf`; observation only, see the design
-// note: range lookup is not part of C13's statement).
+// Shard.GetDataFamilies(range) (diffed against the model's `gdf`, checked for exactness).
 func shardCase(c *core.Ctx, r *rand.Rand, i int) {
 	dir, err := os.MkdirTemp("", "lvh-c13-*")
 	if err != nil {
@@ -117,75 +117,149 @@ func shardCase(c *core.Ctx, r *rand.Rand, i int) {
 			ts = append(ts, tr.End+1)
 		}
 	}
-	// range lookups over what was created: observation only (not diffed, never an oracle failure:
-	// range lookup is outside C13's statement; the model's `gdf` op reproduces it for manual use)
-	for j := 0; j < 4; j++ {
-		qs := clampTS(anchor + r.Int63n(2*span) - span)
-		qe := clampTS(qs + r.Int63n(span))
-		observeGdf(c, shard, k, iv, qs, qe, ts)
+	// range lookups over what was created, through the real shard (intervalSegment → segments):
+	// diffed against the model's `gdf` and checked for exactness. The clustered timestamps span
+	// several families and — for the wide spans — several segments; queries start/end near the
+	// written timestamps, at family / segment starts and ends, and cross month and year boundaries.
+	segs := map[int64]bool{}
+	for _, t := range ts {
+		segs[k.calc.CalcSegmentTime(t)] = true
+	}
+	if len(segs) > 1 {
+		c.Branch("gdf/shard-with-several-segments")
+	}
+	pick := func() int64 {
+		t := ts[r.Intn(len(ts))]
+		switch r.Intn(6) {
+		case 0:
+			return k.calc.CalcFamilyTime(t)
+		case 1:
+			return k.calc.CalcFamilyEndTime(k.calc.CalcFamilyTime(t))
+		case 2:
+			return clampTS(k.calc.CalcFamilyTime(t) - 1 - r.Int63n(hour))
+		case 3:
+			return clampTS(k.calc.CalcSegmentTime(t) - int64(r.Intn(2)))
+		case 4:
+			return clampTS(t + r.Int63n(2*span) - span)
+		default:
+			return t
+		}
+	}
+	for j := 0; j < 10; j++ {
+		qs, qe := pick(), pick()
+		if qs > qe {
+			qs, qe = qe, qs
+		}
+		opGdf(c, shard, k, iv, qs, qe, ts)
 	}
 }
 
-// observeGdf counts the families that intersect [qs,qe] but are not returned by
-// Shard.GetDataFamilies; returns the starts of the returned families.
-func observeGdf(c *core.Ctx, shard tsdb.Shard, k calcT, iv, qs, qe int64, ts []int64) []int64 {
-	fams := shard.GetDataFamilies(timeutil.Interval(iv).Type(), timeutil.TimeRange{Start: qs, End: qe})
+// opGdf runs Shard.GetDataFamilies(type, [qs,qe]) on the real shard whose existing families are
+// those of the timestamps ts, emits it as the diffed `gdf` op and checks C13 on the result: the
+// families returned are exactly the existing families whose time range intersects [qs,qe]; in
+// particular the family of every written timestamp inside the range is returned.
+func opGdf(c *core.Ctx, shard tsdb.Shard, k calcT, iv, qs, qe int64, ts []int64) []int64 {
 	var starts []int64
-	sel := map[int64]bool{}
-	for _, f := range fams {
-		starts = append(starts, f.TimeRange().Start)
-		sel[f.TimeRange().Start] = true
-	}
-	sort.Slice(starts, func(a, b int) bool { return starts[a] < starts[b] })
-	for _, t := range ts {
-		seg := k.calc.CalcSegmentTime(t)
-		s := k.calc.CalcFamilyStartTime(seg, k.calc.CalcFamily(t, seg))
-		e := k.calc.CalcFamilyEndTime(s)
-		if s <= qe && qs <= e && !sel[s] {
-			c.Branch("observation/family-in-range-not-returned/" + k.name)
-			c.Note(fmt.Sprintf("Shard.GetDataFamilies(%s,[%d,%d]) returned %v, not the family [%d,%d] (model op: gdf %s %d %d | %s)",
-				k.name, qs, qe, starts, s, e, k.name, qs, qe, joinInts(ts)))
-			break
+	op := fmt.Sprintf("gdf %s %d %d | %s", k.name, qs, qe, joinInts(ts))
+	guarded(c, op, false, func() string {
+		fams := shard.GetDataFamilies(timeutil.Interval(iv).Type(), timeutil.TimeRange{Start: qs, End: qe})
+		sel := map[int64]bool{}
+		for _, f := range fams {
+			tr := f.TimeRange()
+			if sel[tr.Start] {
+				c.Fail("gdf-duplicate/"+k.name, fmt.Sprintf("%s: family %d returned twice", op, tr.Start))
+			}
+			sel[tr.Start] = true
+			starts = append(starts, tr.Start)
+			if !(tr.Start <= qe && qs <= tr.End) {
+				c.Fail("gdf-extra-family/"+k.name, fmt.Sprintf("%s: returned family [%d,%d] does not intersect the query range", op, tr.Start, tr.End))
+			}
 		}
-	}
+		sort.Slice(starts, func(a, b int) bool { return starts[a] < starts[b] })
+		crossSeg := k.calc.CalcSegmentTime(qs) != k.calc.CalcSegmentTime(qe)
+		if crossSeg {
+			c.Branch("gdf/range-crosses-segment/" + k.name)
+		}
+		if time.UnixMilli(qs).UTC().Month() != time.UnixMilli(qe).UTC().Month() {
+			c.Branch("gdf/range-crosses-month")
+		}
+		if time.UnixMilli(qs).UTC().Year() != time.UnixMilli(qe).UTC().Year() {
+			c.Branch("gdf/range-crosses-year")
+		}
+		for _, t := range ts {
+			s := k.calc.CalcFamilyTime(t)
+			e := k.calc.CalcFamilyEndTime(s)
+			if s <= qe && qs <= e && !sel[s] {
+				key := "gdf-missing-family/" + k.name
+				if qs <= t && t <= qe {
+					key = "gdf-written-family-not-found/" + k.name
+				}
+				c.Fail(key, fmt.Sprintf("%s: existing family [%d,%d] (written t=%d) intersects the query range but is not returned; returned %v", op, s, e, t, starts))
+				break
+			}
+		}
+		if len(starts) == 0 {
+			c.Branch("gdf/none")
+			return "none"
+		}
+		c.Branch("gdf/some")
+		return joinInts(starts)
+	})
 	return starts
 }
 
-// observeLookup: deterministic witness of the range-lookup observation on a real month-type shard:
-// data written on 2023-06-27 and 2023-07-03, query 2023-06-25 .. 2023-07-05.
+// observeLookup: deterministic witness of what fix 8adefd6 repaired, on a real month-type shard
+// and a real year-type shard: data on both sides of a month (year) boundary, query across it.
 func observeLookup(c *core.Ctx) {
-	dir, err := os.MkdirTemp("", "lvh-c13-*")
-	if err != nil {
-		return
+	for _, w := range []struct {
+		k      calcT
+		iv     int64
+		ts     []int64
+		qs, qe int64
+		what   string
+	}{
+		{calcs[1], 5 * min, []int64{ms(2023, 6, 27, 10, 0, 0, 0), ms(2023, 7, 3, 10, 0, 0, 0)},
+			ms(2023, 6, 25, 0, 0, 0, 0), ms(2023, 7, 5, 0, 0, 0, 0),
+			"month-type shard, families 2023-06-27 and 2023-07-03, GetDataFamilies(2023-06-25..2023-07-05)"},
+		{calcs[2], hour, []int64{ms(2022, 12, 10, 0, 0, 0, 0), ms(2023, 1, 20, 0, 0, 0, 0)},
+			ms(2022, 11, 10, 0, 0, 0, 0), ms(2023, 2, 3, 0, 0, 0, 0),
+			"year-type shard, families 2022-12 and 2023-01, GetDataFamilies(2022-11-10..2023-02-03)"},
+		{calcs[0], 10 * sec, []int64{ms(2024, 2, 29, 23, 30, 0, 0), ms(2024, 3, 1, 0, 30, 0, 0)},
+			ms(2024, 2, 29, 23, 10, 0, 0), ms(2024, 3, 1, 0, 40, 0, 0),
+			"day-type shard, families 2024-02-29T23 and 2024-03-01T00, GetDataFamilies(23:10..00:40)"},
+	} {
+		func() {
+			dir, err := os.MkdirTemp("", "lvh-c13-*")
+			if err != nil {
+				return
+			}
+			defer os.RemoveAll(dir)
+			cfg := config.NewDefaultStorageBase()
+			cfg.TSDB.Dir = dir
+			config.SetGlobalStorageConfig(cfg)
+			engine, err := tsdb.NewEngine()
+			if err != nil {
+				c.Note("engine: " + err.Error())
+				return
+			}
+			defer engine.Close()
+			opt := &option.DatabaseOption{Intervals: option.Intervals{{Interval: timeutil.Interval(w.iv), Retention: timeutil.Interval(400 * 365 * day)}}}
+			if err := engine.CreateShards("db", opt, models.ShardID(1)); err != nil {
+				c.Note("create shard: " + err.Error())
+				return
+			}
+			shard, ok := engine.GetShard("db", models.ShardID(1))
+			if !ok {
+				return
+			}
+			for _, t := range w.ts {
+				if _, err := shard.GetOrCrateDataFamily(t); err != nil {
+					c.Note("GetOrCrateDataFamily: " + err.Error())
+					return
+				}
+			}
+			got := opGdf(c, shard, w.k, w.iv, w.qs, w.qe, w.ts)
+			fmt.Printf("OBSERVATION %s returned %d families %v\n", w.what, len(got), got)
+		}()
 	}
-	defer os.RemoveAll(dir)
-	cfg := config.NewDefaultStorageBase()
-	cfg.TSDB.Dir = dir
-	config.SetGlobalStorageConfig(cfg)
-	engine, err := tsdb.NewEngine()
-	if err != nil {
-		c.Note("engine: " + err.Error())
-		return
-	}
-	defer engine.Close()
-	k := calcs[1]
-	iv := 5 * min
-	opt := &option.DatabaseOption{Intervals: option.Intervals{{Interval: timeutil.Interval(iv), Retention: timeutil.Interval(400 * 365 * day)}}}
-	if err := engine.CreateShards("db", opt, models.ShardID(1)); err != nil {
-		c.Note("create shard: " + err.Error())
-		return
-	}
-	shard, ok := engine.GetShard("db", models.ShardID(1))
-	if !ok {
-		return
-	}
-	ts := []int64{ms(2023, 6, 27, 10, 0, 0, 0), ms(2023, 7, 3, 10, 0, 0, 0)}
-	for _, t := range ts {
-		if _, err := shard.GetOrCrateDataFamily(t); err != nil {
-			c.Note("GetOrCrateDataFamily: " + err.Error())
-			return
-		}
-	}
-	got := observeGdf(c, shard, k, iv, ms(2023, 6, 25, 0, 0, 0, 0), ms(2023, 7, 5, 0, 0, 0, 0), ts)
-	fmt.Printf("OBSERVATION month-type shard, families 2023-06-27 and 2023-07-03, GetDataFamilies(2023-06-25..2023-07-05) returned %d families %v\n", len(got), got)
 }
